@@ -219,21 +219,25 @@ def build_harness(config="stable"):
     """Builds the harness against /repo's working tree. config: stable | nightly | simd."""
     if config in _built:
         return _built[config]
-    if config in ("nightly", "simd"):
+    if config in ("nightly", "simd", "nightly-release"):
         require_lockable_memory()      # the nightly harness holds keys in locked containers throughout
     ensure_fresh(os.path.join(HARNESS, "target", config))
     cmd = ["cargo"]
     feats = []
-    if config in ("nightly", "simd"):
+    if config in ("nightly", "simd", "nightly-release"):
         cmd.append("+nightly")
         feats = ["nightly"] + (["simd"] if config == "simd" else [])
     cmd += ["build", "--offline", "--target-dir", "target/" + config]
+    # nightly-release: the optimised profile (debug assertions and overflow checks off) - what a library does only inside a
+    # debug_assert!, or only when an overflow check fires, it does not do there
+    if config == "nightly-release":
+        cmd.append("--release")
     if feats:
         cmd += ["--features", ",".join(feats)]
     rc, out = sh(cmd, cwd=HARNESS, timeout=1800, env={"CARGO_NET_OFFLINE": "true"})
     if rc != 0:
         raise ToolError("harness build (%s) failed:\n%s" % (config, out[-4000:]))
-    binp = os.path.join(HARNESS, "target", config, "debug", "conform")
+    binp = os.path.join(HARNESS, "target", config, "release" if config == "nightly-release" else "debug", "conform")
     _built[config] = binp
     return binp
 
